@@ -6,7 +6,7 @@ PLAIN = dict(units=["type.c"], mode="plain", cut=["error", "error_tok", "error_a
 META = dict(
     level="proof",
     claim="IEEE binary32/binary64 part of the property, bit-exact on CBMC's IEEE-754 semantics: every conversion between float/double and every integer type (and between the two formats) emitted by the real cast() yields the C11 6.3.1.4/6.3.1.5 value for every source value where it is defined; + - * / == != < <= unary minus and logical not emitted by the real gen_expr equal the IEEE operation for all operands including infinities, signed zeros and NaN operands of comparisons; truth tests treat NaN as true (C03 jobs with float/double conditions).",
-    note="Trusted: CBMC's float model (round-to-nearest-even), ghost x86 machine SSE semantics (SDM). Not covered: long double (x87 80-bit) value semantics (outside CBMC's model; only stack discipline, C20), NaN payload propagation, floating constants' decimal-to-binary rounding (libc strtold), floating constant folding.",
+    note="Trusted: CBMC's float model (round-to-nearest-even), ghost x86 machine SSE semantics (SDM). long double: on INTEGER-VALUED values (the ghost x87 registers hold integers or a NaN tag) every conversion row between long double and the integer types yields the value, and == != < <= ! are the IEEE relations incl. NaN operands. Not covered: long double fractions/rounding/arithmetic values and unsigned long results >= 2^63 (outside CBMC's model), NaN payload propagation, floating constants' decimal-to-binary rounding (libc strtold), floating constant folding.",
     functions=["codegen.c:cast", "codegen.c:gen_expr", "codegen.c:cmp_zero", "codegen.c:pushf", "codegen.c:popf", "codegen.c:getTypeId", "type.c:add_type", "type.c:get_common_type", "type.c:usual_arith_conv"],
     trusted_base=["CBMC 6.11 floating-point decision procedure", "spec/x86_ghost.h"],
     assumptions=["operands are abstract side-effect-free expressions"],
@@ -21,6 +21,11 @@ def jobs(tier):
                           sample=f"cast({TI[f]} -> {TI[t]}) for every value whose truncation is representable", **PLAIN))
             js.append(Job(name=f"castf-{TI[t]}-{TI[f]}", src="../C01/castf.c", group="C02.1 fp conversions", defs={"FROM": str(t), "TO": str(f)}, tier="quick" if quick else "thorough",
                           sample=f"cast({TI[t]} -> {TI[f]}) for every integer value", **PLAIN))
+    for t in ints:
+        js.append(Job(name=f"castl-ldouble-{TI[t]}", src="../C01/castl.c", group="C02.1 fp conversions", defs={"DIR": "0", "ITY": str(t)},
+                      sample=f"cast(long double -> {TI[t]}) for every integral value representable in the target (below 2^63)", **PLAIN))
+        js.append(Job(name=f"castl-{TI[t]}-ldouble", src="../C01/castl.c", group="C02.1 fp conversions", defs={"DIR": "1", "ITY": str(t)}, tier="quick" if t in (0, 5, 8) else "thorough",
+                      sample=f"cast({TI[t]} -> long double) for every integer value", **PLAIN))
     js.append(Job(name="castf-float-double", src="../C01/castf.c", group="C02.1 fp conversions", defs={"FROM": "11", "TO": "12"}, sample="float -> double", **PLAIN))
     js.append(Job(name="castf-double-float", src="../C01/castf.c", group="C02.1 fp conversions", defs={"FROM": "12", "TO": "11"}, sample="double -> float (RNE)", **PLAIN))
     for ft in (11, 12):
@@ -32,6 +37,9 @@ def jobs(tier):
             js.append(Job(name=f"fop-{k}-{TI[ft]}", src="../C01/fop.c", group="C02.2 SSE arithmetic and comparison", defs={"KIND": k, "FT": str(ft)},
                           tier="quick" if ((ft == 12 or k in ("ND_LT", "ND_EQ", "ND_ADD", "ND_NOT")) and k not in ("ND_MUL", "ND_DIV")) else "thorough",
                           sample=f"gen_expr({k}) on {TI[ft]} operands, all bit patterns", **CG))
+    for k in ("ND_EQ", "ND_NE", "ND_LT", "ND_LE", "ND_NOT"):
+        js.append(Job(name=f"fopl-{k}", src="../C01/fopl.c", group="C02.2 x87 comparison", defs={"KIND": k}, tier="quick" if k in ("ND_EQ", "ND_NE", "ND_LT") else "thorough",
+                      sample=f"gen_expr({k}) on long double operands: every integral value or a NaN", **CG))
     for k in ("ND_ADD", "ND_SUB", "ND_MUL", "ND_DIV", "ND_EQ", "ND_LT", "ND_COND"):
         js.append(Job(name=f"typingf-{k}", src="../C01/typing.c", group="C02.6 floating rank", defs={"KIND": k, "TMAX": "12"}, units=["parse.c"], mode="plain",
                       cut=["error", "error_tok", "error_at", "warn_tok"], timeout=180, sample=f"add_type({k}) with at least one floating operand, every type pair"))
